@@ -129,11 +129,15 @@ impl ResponseReader {
     ///
     /// This method only exists when the `charsets` feature is enabled.
     #[cfg(feature = "charsets")]
-    pub fn text_with(self, charset: Charset) -> Result<String> {
-        let mut reader = self.text_reader_with(charset);
-        let mut text = String::new();
-        reader.read_to_string(&mut text)?;
-        Ok(text)
+    pub fn text_with(mut self, charset: Charset) -> Result<String> {
+        // Decode the whole body in one go. Going through the streaming `TextReader` and
+        // `read_to_string` can fail with "stream did not contain valid UTF-8": when the body ends in
+        // a malformed or incomplete sequence the streaming decoder may hand out only part of the
+        // final replacement character.
+        let mut buf = Vec::new();
+        self.inner.read_to_end(&mut buf)?;
+        let (text, _) = charset.decode_with_bom_removal(&buf);
+        Ok(text.into_owned())
     }
 
     /// Create a `TextReader` from this `ResponseReader`.
